@@ -217,7 +217,7 @@ type identityPlan struct {
 // restoreIdentities implements the scheme described at the top of this file.  It returns a
 // note per restored function.
 func (l *Loaded) restoreIdentities() []string {
-	if skipIdentity {
+	if skipIdentity || os.Getenv("P9_NO_IDENTITY") != "" {
 		return nil
 	}
 	pkgs := l.modulePkgs()
@@ -245,28 +245,23 @@ func (l *Loaded) restoreIdentities() []string {
 		}
 	}
 	sort.Strings(missing)
-	used := map[*declRec]bool{}
-	var plans []*identityPlan
+	// Pass A: candidates by signature (ties broken by an identical base name).
+	tentative := map[string]*declRec{} // pinned key -> candidate
+	claims := map[*declRec]int{}
+	bySig := map[string][]*declRec{}
+	var open []string
 	for _, k := range missing {
 		pin := pinnedSigs[k]
 		sp := pkgOfKey(k)
 		base := k[strings.LastIndexByte(k, '.')+1:]
 		var cands []*declRec
 		for _, d := range decls {
-			if pinnedFuncs[d.key] || used[d] || d.obj.Exported() || shortPkg(d.pkg.PkgPath) != sp || flatSig(d.obj) != pin.Sig {
+			if pinnedFuncs[d.key] || d.obj.Exported() || shortPkg(d.pkg.PkgPath) != sp || flatSig(d.obj) != pin.Sig {
 				continue
 			}
-			// at least one static caller in common, or none on either side
-			common := len(pin.Callers) == 0 && len(callers[d.obj]) == 0
-			for _, c := range pin.Callers {
-				if callers[d.obj][c] {
-					common = true
-				}
-			}
-			if common {
-				cands = append(cands, d)
-			}
+			cands = append(cands, d)
 		}
+		bySig[k] = cands
 		if len(cands) > 1 {
 			var same []*declRec
 			for _, d := range cands {
@@ -276,11 +271,91 @@ func (l *Loaded) restoreIdentities() []string {
 			}
 			cands = same
 		}
-		if len(cands) != 1 {
+		if len(cands) == 1 {
+			tentative[k] = cands[0]
+			claims[cands[0]]++
+		} else if len(cands) > 1 || len(bySig[k]) > 1 {
+			open = append(open, k)
+		}
+	}
+	// Several functions with one signature changed at once: the candidate that shares the
+	// most static callers with the pinned function, if that is a single one.
+	for progress := true; progress; {
+		progress = false
+		for _, k := range open {
+			if tentative[k] != nil {
+				continue
+			}
+			pin := pinnedSigs[k]
+			pinned := map[string]bool{}
+			for _, c := range pin.Callers {
+				pinned[c] = true
+			}
+			var best *declRec
+			bestN, bestX, tie := 0, 0, false
+			for _, d := range bySig[k] {
+				if claims[d] > 0 {
+					continue
+				}
+				// callers in common, and callers the pinned function did not have
+				n, x := 0, 0
+				for cc := range callers[d.obj] {
+					for pk, td := range tentative {
+						if td.key == cc {
+							cc = pk
+						}
+					}
+					if pinned[cc] {
+						n++
+					} else {
+						x++
+					}
+				}
+				switch {
+				case n > bestN || n == bestN && n > 0 && x < bestX:
+					best, bestN, bestX, tie = d, n, x, false
+				case n == bestN && x == bestX && n > 0:
+					tie = true
+				}
+			}
+			if best != nil && !tie {
+				tentative[k] = best
+				claims[best]++
+				progress = true
+			}
+		}
+	}
+	// Pass B: at least one static caller in common (callers that are themselves candidates
+	// count under the pinned name they stand for), or none on either side.
+	standsFor := map[string]string{}
+	for k, d := range tentative {
+		if claims[d] == 1 {
+			standsFor[d.key] = k
+		}
+	}
+	var plans []*identityPlan
+	for _, k := range missing {
+		d := tentative[k]
+		if d == nil || claims[d] != 1 {
 			continue
 		}
-		used[cands[0]] = true
-		plans = append(plans, &identityPlan{key: k, pinned: pin, cand: cands[0]})
+		pin := pinnedSigs[k]
+		cur := map[string]bool{}
+		for c := range callers[d.obj] {
+			if p, ok := standsFor[c]; ok {
+				c = p
+			}
+			cur[c] = true
+		}
+		common := len(pin.Callers) == 0 && len(cur) == 0
+		for _, c := range pin.Callers {
+			if cur[c] {
+				common = true
+			}
+		}
+		if common {
+			plans = append(plans, &identityPlan{key: k, pinned: pin, cand: d})
+		}
 	}
 	if len(plans) == 0 {
 		return nil
